@@ -137,21 +137,8 @@ theorem nodeStep_spec (n : SelNode) (ctick : Option Nat) (kids : List (Option Na
 theorem nodeStep_tick_some (n : SelNode) (ctick : Option Nat) (kids : List (Option Nat × Bool))
     (h : (nodeStep n ctick kids).2 = true) : ∃ r, (nodeStep n ctick kids).1.out = some r := by
   unfold nodeStep at h ⊢
-  simp only at h ⊢
-  split at h
-  · cases h
-  · split at h
-    · cases h
-    · split at h
-      · cases h
-      · split at h
-        · cases h
-        · rename_i r
-          split at h
-          · cases h
-          · rename_i hne
-            simp only [hne, if_false]
-            exact ⟨r, rfl⟩
+  repeat' split
+  all_goals simp_all
 
 /-! ## the tree -/
 
@@ -198,29 +185,48 @@ theorem chainInv_fresh {c : Chain} (h : c.Fresh) : ChainInv c := by
   | ite id st l r ihl ihr =>
     obtain ⟨hs, hl, hr⟩ := h
     subst hs
-    exact ⟨by intro b r hb; cases hb, ihl hl, ihr hr⟩
+    exact ⟨(by intro b r hb; cases hb), ihl hl, ihr hr⟩
   | cmp id st a b c iha ihb ihc =>
     obtain ⟨hs, ha, hb, hc⟩ := h
     subst hs
-    exact ⟨by intro b r hb; cases hb, iha ha, ihb hb, ihc hc⟩
+    exact ⟨(by intro b' r hb'; cases hb'), iha ha, ihb hb, ihc hc⟩
   | pass k ih => exact ih h
 
-/-- the accuracy of the tick flags of a list of stepped branches, in the form `nodeStep_spec` wants -/
-theorem acc_of {kids : List (Option Nat × Bool)} {old : List (Option Nat)}
-    (h : List.Forall₂ (fun (k : Option Nat × Bool) o => k.2 = false → k.1 = o) kids old) :
-    ∀ b o, pick b kids = some (o, false) → pick b old = some o := by
-  induction h with
-  | nil => intro b o hb; simp [pick] at hb
-  | cons hk _ ih =>
-    intro b o hb
-    cases b with
-    | zero =>
-      simp only [pick, List.getElem?_cons_zero, Option.some.injEq] at hb ⊢
-      subst hb
-      exact (hk rfl).symm
-    | succ b =>
-      simp only [pick, List.getElem?_cons_succ] at hb ⊢
-      exact ih b o hb
+/-- the accuracy of the tick flags of the stepped branches, in the form `nodeStep_spec` wants -/
+theorem acc2 {o1 o2 p1 p2 : Option Nat} {t1 t2 : Bool} (h1 : t1 = false → o1 = p1) (h2 : t2 = false → o2 = p2) :
+    ∀ b o, pick b [(o1, t1), (o2, t2)] = some (o, false) → pick b [p1, p2] = some o := by
+  intro b o hb
+  match b with
+  | 0 =>
+    simp only [pick, List.getElem?_cons_zero, Option.some.injEq, Prod.mk.injEq] at hb ⊢
+    rw [← hb.1]; exact (h1 hb.2).symm
+  | 1 =>
+    simp only [pick, List.getElem?_cons_succ, List.getElem?_cons_zero, Option.some.injEq, Prod.mk.injEq] at hb ⊢
+    rw [← hb.1]; exact (h2 hb.2).symm
+  | n + 2 => simp [pick] at hb
+
+theorem acc3 {o1 o2 o3 p1 p2 p3 : Option Nat} {t1 t2 t3 : Bool} (h1 : t1 = false → o1 = p1)
+    (h2 : t2 = false → o2 = p2) (h3 : t3 = false → o3 = p3) :
+    ∀ b o, pick b [(o1, t1), (o2, t2), (o3, t3)] = some (o, false) → pick b [p1, p2, p3] = some o := by
+  intro b o hb
+  match b with
+  | 0 =>
+    simp only [pick, List.getElem?_cons_zero, Option.some.injEq, Prod.mk.injEq] at hb ⊢
+    rw [← hb.1]; exact (h1 hb.2).symm
+  | 1 =>
+    simp only [pick, List.getElem?_cons_succ, List.getElem?_cons_zero, Option.some.injEq, Prod.mk.injEq] at hb ⊢
+    rw [← hb.1]; exact (h2 hb.2).symm
+  | 2 =>
+    simp only [pick, List.getElem?_cons_succ, List.getElem?_cons_zero, Option.some.injEq, Prod.mk.injEq] at hb ⊢
+    rw [← hb.1]; exact (h3 hb.2).symm
+  | n + 3 => simp [pick] at hb
+
+/-- a tick flag that is `false` although it is exact: the designation did not change -/
+theorem unchanged_of_flag {b : Bool} {o p : Option Nat} (h : b = true ↔ o ≠ p) (hb : b = false) : o = p := by
+  apply Decidable.of_not_not
+  intro hne
+  rw [h.mpr hne] at hb
+  cases hb
 
 /-- **chain_out_spec**: in every cycle, for every tree whose nodes are consistent (`ChainInv`, which holds
 in every reachable state - `chain_inv`), the event-driven evaluation of the operators publishes exactly the
@@ -236,14 +242,7 @@ theorem chain_out_spec (cin : Nat → Option Nat) (c : Chain) (h : ChainInv c) :
     obtain ⟨hn, hl, hr⟩ := h
     obtain ⟨l1, l2, l3⟩ := ihl hl
     obtain ⟨r1, r2, r3⟩ := ihr hr
-    have hacc := acc_of (kids := [((stepChain cin l).1.out, (stepChain cin l).2),
-        ((stepChain cin r).1.out, (stepChain cin r).2)]) (old := [l.out, r.out])
-      (.cons (fun e => by
-          have := l2.not.mp (by simpa using e)
-          simpa using this)
-        (.cons (fun e => by
-          have := r2.not.mp (by simpa using e)
-          simpa using this) .nil))
+    have hacc := acc2 (unchanged_of_flag l2) (unchanged_of_flag r2)
     obtain ⟨s1, _, s3, s4⟩ := nodeStep_spec st (cin id) _ _ hacc hn
     refine ⟨?_, ?_, ?_, l3, r3⟩
     · simp only [stepChain, Chain.out, specChain]
@@ -255,18 +254,7 @@ theorem chain_out_spec (cin : Nat → Option Nat) (c : Chain) (h : ChainInv c) :
     obtain ⟨a1, a2, a3⟩ := iha ha
     obtain ⟨b1, b2, b3⟩ := ihb hb
     obtain ⟨c1, c2, c3⟩ := ihc hc
-    have hacc := acc_of (kids := [((stepChain cin a).1.out, (stepChain cin a).2),
-        ((stepChain cin b).1.out, (stepChain cin b).2), ((stepChain cin c).1.out, (stepChain cin c).2)])
-      (old := [a.out, b.out, c.out])
-      (.cons (fun e => by
-          have := a2.not.mp (by simpa using e)
-          simpa using this)
-        (.cons (fun e => by
-          have := b2.not.mp (by simpa using e)
-          simpa using this)
-        (.cons (fun e => by
-          have := c2.not.mp (by simpa using e)
-          simpa using this) .nil)))
+    have hacc := acc3 (unchanged_of_flag a2) (unchanged_of_flag b2) (unchanged_of_flag c2)
     obtain ⟨s1, _, s3, s4⟩ := nodeStep_spec st (cin id) _ _ hacc hn
     refine ⟨?_, ?_, ?_, a3, b3, c3⟩
     · simp only [stepChain, Chain.out, specChain]
@@ -349,7 +337,6 @@ theorem cycle_ref (s : State) (inp : CycleIn) :
 /-- re-publishing the current reference is the same cycle as publishing nothing -/
 theorem cycle_sel_ref (s : State) (ticks : Nat → Option Delta) :
     cycle s { sel := s.ref, ticks := ticks } = cycle s { sel := none, ticks := ticks } := by
-  have f := afterTicks_frame s { sel := s.ref, ticks := ticks }
   have hm : cycleMid s { sel := s.ref, ticks := ticks } = cycleMid s { sel := none, ticks := ticks } := by
     rw [cycleMid_eq, cycleMid_eq]
     show select (afterTicks s { sel := s.ref, ticks := ticks }) s.ref =
@@ -359,6 +346,7 @@ theorem cycle_sel_ref (s : State) (ticks : Nat → Option Delta) :
     cases hr : s.ref with
     | none => rfl
     | some i =>
+      have f := afterTicks_frame s { sel := some i, ticks := ticks }
       rw [ref_same_no_tick _ i (by rw [f.2.2.2.2.1, hr])]
       rfl
   simp only [cycle, hm]
@@ -370,9 +358,7 @@ theorem cycleC_eq {x : CSys} (h : CInv x) (inp : CIn) :
   obtain ⟨_, h2, _⟩ := chain_out_spec inp.conds x.chain h.chain
   unfold rootSel
   cases ht : (stepChain inp.conds x.chain).2
-  · have : (stepChain inp.conds x.chain).1.out = x.chain.out := by
-      have := h2.not.mp (by simp [ht])
-      simpa using this
+  · have : (stepChain inp.conds x.chain).1.out = x.chain.out := unchanged_of_flag h2 ht
     rw [this, ← h.ref, cycle_sel_ref]
     rfl
   · rfl
@@ -385,9 +371,7 @@ theorem cinv_cycleC {x : CSys} (h : CInv x) (inp : CIn) : CInv (cycleC x inp).1 
   rw [cycle_ref]
   unfold rootSel
   cases ht : (stepChain inp.conds x.chain).2
-  · have : (stepChain inp.conds x.chain).1.out = x.chain.out := by
-      have := h2.not.mp (by simp [ht])
-      simpa using this
+  · have : (stepChain inp.conds x.chain).1.out = x.chain.out := unchanged_of_flag h2 ht
     simp [this, h.ref]
   · simp only [if_true]
     obtain ⟨r, hr⟩ := stepChain_tick_some inp.conds x.chain ht
@@ -401,5 +385,103 @@ theorem chain_inv {cfg : Cfg} {c0 : Chain} (hf : c0.Fresh) (h0 : c0.out = none) 
   induction h with
   | init => exact ⟨chainInv_fresh hf, by simp [init, h0], inv_init cfg⟩
   | step inp _ ih => exact cinv_cycleC ih inp
+
+/-- **chain_equals_resolved**: a cycle of a selection tree above a dereference is the cycle of ONE reference
+whose selector input is what the root designates after the cycle - same next state of the dereference, same
+evaluations, same views; when following the selections reaches a target `t`, it is the cycle of a single
+reference (re-)selecting `t`.  For every tree, every reachable state, every cycle input. -/
+theorem chain_equals_resolved {x : CSys} (h : CInv x) (inp : CIn) :
+    (cycleC x inp).2 = (cycle x.s { sel := (cycleC x inp).1.chain.out, ticks := inp.ticks }).2 ∧
+    (cycleC x inp).1.s = (cycle x.s { sel := (cycleC x inp).1.chain.out, ticks := inp.ticks }).1 ∧
+    ∀ t, resolve (cycleC x inp).1.chain = some t →
+      (cycleC x inp).2 = (cycle x.s { sel := some t, ticks := inp.ticks }).2 ∧
+      (cycleC x inp).1.s = (cycle x.s { sel := some t, ticks := inp.ticks }).1 := by
+  have e := cycleC_eq h inp
+  have e1 : (cycleC x inp).2 = (cycle x.s { sel := (cycleC x inp).1.chain.out, ticks := inp.ticks }).2 :=
+    congrArg Prod.snd e
+  have e2 : (cycleC x inp).1.s = (cycle x.s { sel := (cycleC x inp).1.chain.out, ticks := inp.ticks }).1 :=
+    congrArg Prod.fst e
+  refine ⟨e1, e2, fun t ht => ?_⟩
+  have ho := chain_out_resolved (cinv_cycleC h inp).chain ht
+  rw [ho] at e1 e2
+  exact ⟨e1, e2⟩
+
+/-- **chain_retarget_samples**: when the designation of the root changes to a target that is valid (the
+change may come from ANY selector of the tree, the root's own selector may be silent), every consumer
+below the tree is evaluated in that same cycle, sees `modified`, and reads the new target's value. -/
+theorem chain_retarget_samples {x : CSys} (h : CInv x) (inp : CIn) {t : Nat}
+    (hnew : (cycleC x inp).1.chain.out = some t) (hne : x.chain.out ≠ some t)
+    (hv : ((cycleC x inp).1.s.targets t).valid = true) {c : Nat} (hc : c < x.s.nC) :
+    ∃ v, (c, v) ∈ (cycleC x inp).2 ∧ v.valid = true ∧ v.modified = true ∧
+      v.items = ((cycleC x inp).1.s.targets t).items := by
+  obtain ⟨e1, e2, _⟩ := chain_equals_resolved h inp
+  rw [hnew] at e1 e2
+  rw [e2] at hv ⊢
+  obtain ⟨v, hs⟩ := ref_retarget_samples h.flat { sel := some t, ticks := inp.ticks } rfl
+    (by rw [h.ref]; exact hne) hv hc
+  exact ⟨v, by rw [e1]; exact hs.evaluated, hs.valid, hs.modified, hs.value⟩
+
+/-- **chain_unchanged_silent**: a cycle in which the root designates what it designated before - whatever
+selectors ticked, on or off the current path, including a change of path that ends at the same target -
+and in which that target gets no tick evaluates no consumer. -/
+theorem chain_unchanged_silent {x : CSys} (h : CInv x) (hs : x.s.sched = []) (inp : CIn)
+    (hsame : (cycleC x inp).1.chain.out = x.chain.out)
+    (hq : ∀ t, x.chain.out = some t → inp.ticks t = none) : (cycleC x inp).2 = [] := by
+  obtain ⟨e1, _, _⟩ := chain_equals_resolved h inp
+  rw [e1, hsame]
+  exact ref_unselected_silent h.flat hs _ (Or.inr h.ref.symm) (fun t ht => hq t (by rw [← h.ref]; exact ht))
+
+/-- **chain_reads_designated**: whatever a consumer below the tree reads is the value of the target the
+root designates at that moment. -/
+theorem chain_reads_designated {x : CSys} (h : CInv x) (inp : CIn) {c : Nat} {v : View}
+    (hcv : (c, v) ∈ (cycleC x inp).2) :
+    match (cycleC x inp).1.chain.out with
+    | some t => v.valid = ((cycleC x inp).1.s.targets t).valid ∧ v.items = ((cycleC x inp).1.s.targets t).items
+    | none => v.valid = false := by
+  have hr := (cinv_cycleC h inp).ref
+  rw [← hr]
+  exact ref_reads_target h.flat _ hcv
+
+/-! ## non-vacuity and the stale reference -/
+
+/-- `if_then_else(s0, if_then_else(s1, a, b), if_then_else(s2, c, d))` -/
+def tree2 : Chain := .ite 0 {} (.ite 1 {} (.leaf 0) (.leaf 1)) (.ite 2 {} (.leaf 2) (.leaf 3))
+
+def condsOf (l : List (Nat × Nat)) : Nat → Option Nat := fun n => (l.find? (·.1 == n)).map (·.2)
+
+/-- **the designation is not `resolve` when the selections do not resolve**: after `s0 = true, s1 = true`
+the tree designates `a`; `s0 = false` then selects the right inner node, whose selector never ticked:
+following the selections reaches nothing, but the root keeps designating `a` (`if (!selected.valid())
+return;`). -/
+def staleExample : Chain := (stepChain (condsOf [(0, 1)]) (stepChain (condsOf [(0, 0), (1, 0)]) tree2).1).1
+
+example : resolve staleExample = none ∧ staleExample.out = some 0 := by decide
+
+def cfgTs4 : Cfg := { shape := .ts, nC := 2, nT := 4 }
+
+/-- both inner nodes selected, the root on the left one, `a = 1`, `b = 10` -/
+def stC : CSys :=
+  (cycleC { chain := tree2, s := init cfgTs4 }
+    { conds := condsOf [(0, 0), (1, 0), (2, 0)],
+      ticks := fun u => if u = 0 then some { sets := [(0, 1)] } else if u = 1 then some { sets := [(0, 10)] } else none }).1
+
+theorem stC_reach : CReach cfgTs4 tree2 stC := CReach.step _ CReach.init
+
+/-- the hypotheses of `chain_retarget_samples` are met by the scenario of the seeded defect s16: only the
+INNER selector ticks (the root's selector is silent), the designation moves from `a` to `b`, which ticked in
+an earlier cycle, and both consumers are evaluated -/
+example : ∃ inp : CIn, inp.conds 0 = none ∧ (cycleC stC inp).1.chain.out = some 1 ∧ stC.chain.out ≠ some 1 ∧
+    ((cycleC stC inp).1.s.targets 1).valid = true ∧ (∀ t, inp.ticks t = none) ∧ (cycleC stC inp).2.length = 2 :=
+  ⟨{ conds := condsOf [(1, 1)] }, by decide, by decide, by decide, by decide, fun _ => rfl, by decide⟩
+
+/-- the hypotheses of `chain_unchanged_silent` are met by a cycle in which an inner selector OFF the current
+path ticks and an unselected target ticks -/
+example : ∃ inp : CIn, inp.conds 2 = some 1 ∧ stC.s.sched = [] ∧ (cycleC stC inp).1.chain.out = stC.chain.out ∧
+    (∀ t, stC.chain.out = some t → inp.ticks t = none) ∧ inp.ticks 1 ≠ none :=
+  ⟨{ conds := condsOf [(2, 1)], ticks := fun u => if u = 1 then some { sets := [(0, 11)] } else none },
+    by decide, rfl, by decide, by
+      intro t ht
+      have h0 : stC.chain.out = some 0 := by decide
+      rw [h0] at ht; cases ht; rfl, by decide⟩
 
 end HgVerif.RefLink
